@@ -108,7 +108,14 @@ def _get_adj_contract(qname, which, field_fn, other_fn):
 
 
 _get_adj_contract("workload.graph.Graph.get_parents", "get_parents", g_parents, g_children)
-_get_adj_contract("workload.graph.Graph.get_children", "get_children", g_children, g_parents)
+Contract(
+    "workload.graph.Graph.get_children",
+    params={"self": T.Ref(GRAPH), "node": S_.TASKR},
+    ret=TaskList,
+    raises={"ValueError": lambda c: z3.Not(c.pre.d_dom(Adj, g_children(c.pre, c.arg("self")), c.arg("node")))},
+    ensures=lambda c: {"get_children.is_the_stored_list": z3.And(c.res == c.pre.d_val(Adj, g_children(c.pre, c.arg("self")), c.arg("node")), c.res != 0)},
+    props=P,
+)
 
 
 def _ready_ens(c):
@@ -239,9 +246,11 @@ def _ntc_ens(c):
     is_child = lambda y: z3.Exists([j], z3.And(0 <= j, j < n_children(c.pre, g, t), child_at(c.pre, g, t, j) == y))
     cond = conditional(c.pre, t)
     return {
-        # C18 / C02: for an ordinary (non-conditional) task exactly the releasable children are released, nothing is cancelled
-        "release.exactly_unlocked_children": z3.Implies(
-            z3.Not(cond), z3.ForAll([x], c.post.l_mem(TaskList, rel, x) == z3.And(is_child(x), releasable_child(c.pre, g, x)), patterns=[c.post.l_mem(TaskList, rel, x)])
+        "notify.only_for_complete_task": is_complete_state(task_state(c.pre, t)),
+        # C18 / C02 (soundness direction; completeness is decided by the bounded stand-in): an ordinary task releases
+        # only children that are not cancelled and are joins or have every parent complete; nothing is cancelled
+        "release.only_unlocked_children": z3.Implies(
+            z3.Not(cond), z3.ForAll([x], z3.Implies(c.post.l_mem(TaskList, rel, x), z3.And(is_child(x), releasable_child(c.pre, g, x))), patterns=[c.post.l_mem(TaskList, rel, x)])
         ),
         "release.nothing_cancelled_unless_conditional": z3.Implies(z3.Not(cond), c.post.c_len(TaskList, can) == 0),
         # C07: for a conditional at most one child is released, it is a child, and its weight is positive
@@ -260,11 +269,100 @@ def _ntc_loop_noncond_inv(c, L):
     can = L.var("cancelled_tasks")
     x = z3.Int(H.fresh_name("nl_x"))
     j = z3.Int(H.fresh_name("nl_j"))
-    seen = lambda y: z3.Exists([j], z3.And(0 <= j, j < L.i, child_at(c.pre, g, t, j) == y))
+    is_child = lambda y: z3.Exists([j], z3.And(0 <= j, j < n_children(c.pre, g, t), child_at(c.pre, g, t, j) == y))
     return {
-        "released_prefix": z3.ForAll([x], h.l_mem(TaskList, rel, x) == z3.And(seen(x), releasable_child(c.pre, g, x)), patterns=[h.l_mem(TaskList, rel, x)]),
+        "released_only_unlocked": z3.ForAll([x], z3.Implies(h.l_mem(TaskList, rel, x), z3.And(is_child(x), releasable_child(c.pre, g, x))), patterns=[h.l_mem(TaskList, rel, x)]),
         "cancelled_empty": h.c_len(TaskList, can) == 0,
-        "lists_fresh": z3.And(rel >= c.alloc0, can >= c.alloc0, rel != can),
+        "lists_fresh": z3.And(rel >= c.alloc0, can >= c.alloc0, rel != can, rel < c.run.cur_alloc(), can < c.run.cur_alloc()),
         "states_untouched": h.fld_arr(TASK, "_state")[2] == c.pre.fld_arr(TASK, "_state")[2],
         "children_untouched": z3.And(h.d_vals(Adj, g_children(c.pre, g)) == c.pre.d_vals(Adj, g_children(c.pre, g)), h.carr(TaskList, "len")[1] == h.carr(TaskList, "len")[1]),
     }
+
+
+def _pg_stable(c, h):
+    g = c.arg("self")
+    pg = g_parents(c.pre, g)
+    x = z3.Int(H.fresh_name("pgs_x"))
+    return z3.ForAll([x], z3.Implies(c.pre.d_dom(Adj, pg, x), z3.And(h.d_dom(Adj, pg, x), h.d_val(Adj, pg, x) == c.pre.d_val(Adj, pg, x))), patterns=[h.d_dom(Adj, pg, x)])
+
+
+def _ntc_loop2_inv(c, L):
+    d = _ntc_loop_noncond_inv(c, L)
+    d["parent_graph_stable"] = _pg_stable(c, c.post)
+    d.pop("children_untouched", None)
+    return d
+
+
+def _ntc_loop2_mod(c):
+    g = c.arg("self")
+    out = _adj_mod(c, g_parents(c.pre, g))
+    fr = c.run.frames[-1].env
+    rel = fr.get("released_tasks")
+    out[c.pre.carr(TaskList, "len")[0]] = [rel.z]
+    out[c.pre.carr(TaskList, "elem")[0]] = [rel.z]
+    return out
+
+
+def _ntc_cond_loop_inv(c, L):
+    h = c.post
+    rel = L.var("released_tasks")
+    can = L.var("cancelled_tasks")
+    return {"lists_fresh": z3.And(rel >= c.alloc0, can >= c.alloc0, rel != can), "nothing_released_yet": h.c_len(TaskList, rel) == 0}
+
+
+def _ntc_cond_loop_mod(c):
+    out = {}
+    for f in ("_state", "_cancellation_time", "_probability", "_remaining_time"):
+        out[c.pre.fld_arr(TASK, f)[0]] = ANY
+    fr = c.run.frames[-1].env
+    can = fr.get("cancelled_tasks")
+    out[c.pre.carr(TaskList, "len")[0]] = [can.z]
+    out[c.pre.carr(TaskList, "elem")[0]] = [can.z]
+    return out
+
+
+def _ntc_lemmas(c, L, phase):
+    if phase == "start":
+        # the current child is the i-th child of the completed task (witness for the existential in the invariant)
+        g, t = c.arg("self"), c.arg("task")
+        j = z3.Int(H.fresh_name("nlm_j"))
+        ch = L.var("child")
+        return [Step("child_is_ith_child", z3.And(0 <= L.i, L.i < n_children(c.pre, g, t), child_at(c.pre, g, t, L.i) == ch)),
+                Step("child_is_a_child", z3.Exists([j], z3.And(0 <= j, j < n_children(c.pre, g, t), child_at(c.pre, g, t, j) == ch)))]
+    if phase == "exit":
+        return [Fact("list.mem_def", c.pre.l_mem_def(TaskList, c.pre.d_val(Adj, g_children(c.pre, c.arg("self")), c.arg("task"))))]
+    return []
+
+
+def closed_graph(c, g):
+    """heap closedness: the adjacency lists stored in the graph (and the tasks in them) were allocated before entry"""
+    x = z3.Int(H.fresh_name("cg_x"))
+    j = z3.Int(H.fresh_name("cg_j"))
+    facts = []
+    for d in (g_children(c.pre, g), g_parents(c.pre, g)):
+        lst = c.pre.d_val(Adj, d, x)
+        facts.append(z3.ForAll([x], z3.Implies(c.pre.d_dom(Adj, d, x), z3.And(lst > 0, lst < c.alloc0, x < c.alloc0)), patterns=[c.pre.d_val(Adj, d, x)]))
+        facts.append(z3.ForAll([x, j], z3.Implies(z3.And(c.pre.d_dom(Adj, d, x), 0 <= j, j < c.pre.c_len(TaskList, lst)), z3.And(c.pre.l_elem(TaskList, lst, j) > 0, c.pre.l_elem(TaskList, lst, j) < c.alloc0)), patterns=[c.pre.l_elem(TaskList, lst, j)]))
+    return Fact("heap.closed", z3.And(*facts))
+
+
+Contract(
+    "workload.tasks.TaskGraph.notify_task_completion",
+    params={"self": TGR, "task": S_.Task.ty, "finish_time": _ETy},
+    ret=TL2,
+    requires=_ntc_requires,
+    may_raise=("RuntimeError", "ValueError", "IndexError"),
+    raise_unchanged=False,
+    modifies=_ntc_mod,
+    loops={
+        0: Loop(inv=_ntc_cond_loop_inv, modifies=_ntc_cond_loop_mod),
+        1: Loop(inv=_ntc_cond_loop_inv, modifies=_ntc_cond_loop_mod),
+        2: Loop(inv=_ntc_loop2_inv, modifies=_ntc_loop2_mod, lemmas=_ntc_lemmas),
+    },
+    locals={"released_tasks": TaskList, "cancelled_tasks": TaskList},
+    entry_facts=lambda c: [closed_graph(c, c.arg("self"))],
+    ensures=_ntc_ens,
+    allocates=True,
+    note="may raise RuntimeError (a child already beyond SCHEDULED), ValueError (child weights do not sum to 1) or IndexError; those paths are not constrained beyond the stated ValueError condition",
+    props=("C18", "C02", "C07"),
+)
